@@ -34,7 +34,7 @@ from engines.refmodels import delta as refdelta
 from engines.refmodels import minipack
 
 SETUP = "engines.deltaspace:sb_setup"
-SETUP_ARG = ["B0", "B3", "B5", "BL", "BA"]
+SETUP_ARG = ["B0", "B1", "B3", "B5", "BL", "BA", "BK"]
 DECODE = "engines.deltaspace:sb_decode"
 ENCODE = "engines.deltaspace:sb_encode"
 
@@ -147,20 +147,48 @@ def judge_hostile(acc: Acc, site, bref, delta, form, obs, an, base, replay):
     return verdict
 
 
-def eval_hostile(acc: Acc, items, forms=(0,)):
-    """items: [(base ref, delta)].  Every decoder x every form, judged against the reference trace."""
+def eval_hostile(acc: Acc, items, forms=(0,), git_bases=()):
+    """items: [(base ref, delta)].  Every decoder x every form, judged against the reference trace.
+    git_bases: base names for which C git (index-pack) is asked as well: entirely valid deltas (one pack
+    per call) and deltas that a dulwich decoder accepted although they are not entirely valid (one
+    index-pack each).  C git's verdict is a cross-check of the reference model and an outcome class —
+    the statement leaves open whether an irregular trailing instruction is rejected."""
     inputs = [(bref, d, f) for (bref, d) in items for f in forms]
     ps = pools()
     res = sandbox.observe_all([(p, DECODE, inputs) for _, p in ps], **FAST)
     k = 0
+    git_valid, git_lenient = [], []
     for bref, d in items:
         base = ds.base_of(bref)
         an = refdelta.analyse(len(base), d)
         acc.count("hostile_inputs")
+        accepted = False
         for f in forms:
             for (site, _), obs in zip(ps, res):
-                judge_hostile(acc, site + ".apply_delta", bref, d, f, obs[k], an, base, rp(case_decode, bref, d, f))
+                v = judge_hostile(acc, site + ".apply_delta", bref, d, f, obs[k], an, base, rp(case_decode, bref, d, f))
+                accepted = accepted or v == "ok-accepted-irregular"
             k += 1
+        if bref in git_bases:
+            if an.valid() and len(d) >= refdelta.GIT_MIN_DELTA:
+                git_valid.append((base, d, an))
+            elif accepted:
+                git_lenient.append((base, d, an))
+    if git_valid or git_lenient:
+        g = _Git.get()
+        for (base, d, an), got in zip(git_valid, g.decode_batch([(b, d) for b, d, _ in git_valid])):
+            acc.count("hostile_git_index_pack")
+            if got != minipack.blob_id(an.result(base)).hex():
+                raise HarnessError("reference decoder and git index-pack disagree on a valid delta: base of %d bytes, delta %s -> %s"
+                                   % (len(base), d.hex(), got))
+            acc.outcome("dec:git.index-pack:ok-valid")
+        for base, d, an in git_lenient:
+            acc.count("hostile_git_index_pack")
+            got = g.decode_batch([(base, d)])[0]
+            if not got.startswith("rejected"):
+                raise HarnessError("git index-pack accepts a delta the reference model (git semantics) calls invalid: base of %d "
+                                   "bytes, delta %s" % (len(base), d.hex()))
+            # dulwich accepts, C git 2.39 refuses ("delta replay has gone wild"): allowed by the statement, recorded
+            acc.outcome("dec:git.index-pack:rejects-irregular-delta-dulwich-accepts:%s" % an.features()[0])
 
 
 def case_decode(acc: Acc, bref, delta, form=0):
@@ -480,6 +508,11 @@ def _work(acc, task):
         items = ds.structured_copy([cmd], ds.copy_values(thorough))[part::nparts]
         acc.count("structured:copy-masks", len(items))
         eval_hostile(acc, [(b, d) for _, b, d in items])
+    elif kind == "swidth":
+        _, cmds, git_bases = task
+        items = ds.structured_copy_widths(cmds)
+        acc.count("structured:copy-widths", len(items))
+        eval_hostile(acc, [(b, d) for _, b, d in items], git_bases=git_bases)
     elif kind == "pairs":
         _, pairs, use_git = task
         eval_pairs(acc, [("small", b, t) for b, t in pairs], use_git=use_git, enc_forms=(0, 2))
@@ -524,6 +557,11 @@ def run(ctx):
         nparts = max(1, 10 * nvals ** bin(cmd & 0x7F).count("1") // 40000)
         for part in range(nparts):
             tasks.append(("scopy", cmd, not q, part, nparts))
+    # copy instructions at the width boundaries of their offset / size fields (offset + size around
+    # 2^8 .. 2^32), also resolved by C git where a dulwich decoder accepts or the delta is valid
+    git_bases = ("B1",) if q else ds.WIDTH_BASES
+    for lo in range(0x80, 0x100, 4):
+        tasks.append(("swidth", list(range(lo, lo + 4)), git_bases))
     # small pairs
     pairs = list(ds.small_pairs(pair_len))
     for part in split(ctx.order(pairs), max(J * 4, len(pairs) // 4000)):
@@ -549,6 +587,8 @@ def run(ctx):
         raise HarnessError("hostile enumeration incomplete: %r != %d" % (n.get("hostile_exhaustive_strings"), want_h))
     if n.get("pairs", 0) < len(pairs) + len(bp) + ng:
         raise HarnessError("pair enumeration incomplete")
+    if n.get("structured:copy-widths") != ds.copy_width_count():
+        raise HarnessError("copy-width family incomplete: %r != %d" % (n.get("structured:copy-widths"), ds.copy_width_count()))
     classes = ctx.acc.classes
     # vacuity guards: the interesting things must really have happened
     must = ["enc:py.create_delta:ok", "enc:rust.create_delta:ok", "rt:py.create_delta->rust.apply_delta:ok",
@@ -560,6 +600,8 @@ def run(ctx):
     for m in must:
         if not classes.get(m):
             raise HarnessError("vacuous run: outcome class %r never occurred" % m)
+    if not classes.get("dec:git.index-pack:ok-valid"):
+        raise HarnessError("vacuous run: C git never resolved a valid delta of the copy-width family")
     for site in ("py.apply_delta", "rust.apply_delta"):
         if not any(c.startswith("dec:%s:ok-valid" % site) for c in classes) or \
            not any(c.startswith("dec:%s:delta-error" % site) for c in classes):
@@ -570,7 +612,7 @@ def run(ctx):
         ctx.coverage["cap"] = ("%d sandbox calls were skipped by the timeout circuit breaker (3 timeouts per batch); the "
                                "timeouts themselves are reported as violations" % n["skipped_after_timeouts"])
     ctx.coverage.update(
-        evaluations=n.get("decodes", 0) + n.get("roundtrips", 0) + n.get("roundtrips_ref", 0) + n.get("roundtrips_git_index_pack", 0),
+        evaluations=n.get("decodes", 0) + n.get("hostile_git_index_pack", 0) + n.get("roundtrips", 0) + n.get("roundtrips_ref", 0) + n.get("roundtrips_git_index_pack", 0),
         distinct_nontrivial=len([c for c in classes if not c.endswith(":ok") and ":ok-valid:" not in c]),
         exhaustive=not n.get("skipped_after_timeouts"),
         rule=(
@@ -578,7 +620,10 @@ def run(ctx):
             "each through every encoder {py,rust%s} x every decoder {py,rust,reference%s} x call forms {bytes, chunk lists}; "
             "(b) ALL %d byte strings of length <=%d over the alphabet %s as deltas against bases of length 0/3/5, plus "
             "%d structured deltas (varints of 1..11 bytes, declared sizes up to 2^70, every copy opcode 0x80..0xff x "
-            "offset/size bytes in %r, mutations of valid deltas, copy amplification), each against py and rust apply_delta "
+            "offset/size bytes in %r, every copy opcode x width-boundary values 00/01/7f/80/ff of each offset/size byte over "
+            "all-00 / all-ff backgrounds against bases of 0/1/65536/65537 bytes (offset+size up to and beyond 2^32; C git "
+            "index-pack cross-checks the valid and the leniently accepted ones), mutations of valid deltas, copy "
+            "amplification), each against py and rust apply_delta "
             "inside the sandbox (RLIMIT_AS 2 GiB, CPU limit, wall-clock watchdog). evaluations = decoder calls judged + "
             "round-trip comparisons. distinct_nontrivial = observed outcome classes other than plain success."
             % (pair_len, len(pairs), len(bp), (" + %d block pairs for the C git encoder" % ng) if ng else "",
